@@ -143,4 +143,24 @@ def run_case(case, ctx):
         if msg:
             ctx.violation('bad_selection', dict(desc, np_seed=1000 * rs + 17), msg, feats)
             break
+    # history: the same selector instance answers a second, different query correctly (no state kept)
+    req2 = sorted(set(clusters.tolist()))[:2]
+    count2 = 2 if count != 2 else 1
+    np.random.seed(5)
+    rr = call(sel, count2, req2, subset_chunks=not subset_chunks, subset_spikes=None)
+    ctx.count(1, cell=('second_query',))
+    if not rr.ok:
+        ctx.violation('raised', desc, 'second query on the same selector raised %r' % rr.exc, dict(feats, second_query=True), tb=rr.tb)
+    else:
+        out = np.asarray(rr.value).tolist()
+        msg = None
+        for c in req2:
+            e = [i for i in range(len(t)) if clusters[i] == c and (subset_chunks or in_kept(t[i]))]
+            got = [i for i in out if clusters[i] == c]
+            if (len(e) <= count2 and got != e) or (len(e) > count2 and (len(got) != count2 or not set(got) <= set(e))):
+                msg = 'second query: cluster %r eligible %r returned %r (count %d)' % (c, e[:12], got[:12], count2)
+        if sorted(out) != out or len(set(out)) != len(out) or any(clusters[i] not in req2 for i in out):
+            msg = 'second query: output %r not increasing / outside the requested clusters' % out[:20]
+        if msg:
+            ctx.violation('bad_selection', desc, msg, dict(feats, second_query=True))
     ctx.sample({k: desc[k] for k in ('bounds', 'times', 'n_chunks_kept', 'count', 'requested', 'subset_chunks')}, every=701)
